@@ -102,6 +102,9 @@ type GenOpts struct {
 	// relay that is not inherited; legacy entries that rely on field-wise
 	// fall-back to default_config), so that C11/C12 judge their own property.
 	AvoidKnown bool
+	// UnusableRelay: percent of v2 documents that list, among the top-level relays, one whose address
+	// no builder client can be made for (an operator's typo: a space in the host name).
+	UnusableRelay int
 }
 
 // GenDocV2 draws a version 2 document.
@@ -112,6 +115,9 @@ func GenDocV2(p *simrt.Tape, o GenOpts) *DocV2 {
 	nr := p.Range(0, o.MaxRelays)
 	for _, a := range pickDistinct(p, nr, NRelays) {
 		d.Relays = append(d.Relays, RelayEntry{Addr: a, Vals: genVals(p, density, true)})
+	}
+	if o.UnusableRelay > 0 && p.Pct(o.UnusableRelay) {
+		d.Relays = append(d.Relays, RelayEntry{Addr: UnusableRelay, Vals: genVals(p, density, true)})
 	}
 	np := p.Range(0, o.MaxProposers)
 	unres := -1
